@@ -26,6 +26,8 @@ import (
 	"github.com/btcsuite/btcd/chaincfg"
 	"github.com/btcsuite/btcd/chaincfg/chainhash"
 	"github.com/ethereum/go-ethereum/common"
+	subListenerR "github.com/ChainSafe/sygma-relayer/chains/substrate/listener"
+	"github.com/centrifuge/go-substrate-rpc-client/v4/registry/parser"
 	"github.com/rs/zerolog"
 	"github.com/rs/zerolog/log"
 	"github.com/ChainSafe/sygma-relayer/chains/evm/executor"
@@ -257,12 +259,37 @@ func init() {
 			ri := ri
 			f := strings.Split(a[2+ri], ",")
 			domain := uint8(1)
+			// the REAL deposit event handler of the chain type resolves the fixed fake chain's deposits of every range handed
+			// to handler 0: block b carries one deposit to domain 2 + b%2 (EVM/Substrate: nonce b; BTC: one paying transaction)
 			eh := eventHandlers.NewDepositEventHandler(c19EvmListener{deposits: chainDeposits}, c19DepositHandler{}, common.Address{}, domain, make(chan []*message.Message, 1))
+			sh := subListenerR.NewFungibleTransferEventHandler(zerolog.Context{}, domain, c19SubDepositHandler{}, make(chan []*message.Message, 1),
+				&c19SubConn{events: func(s, e *big.Int) []*parser.Event {
+					out := []*parser.Event{}
+					for _, d := range chainDeposits(s, e) {
+						out = append(out, c19SubDepositEvent(d.DestinationDomainID, d.DepositNonce, false))
+					}
+					return out
+				}})
+			var curBlock int64
+			bh := btcListener.NewFungibleTransferEventHandler(zerolog.Context{}, domain, &btcListener.BtcDepositHandler{}, make(chan []*message.Message, 1),
+				c19BtcChainConn{&curBlock}, mkBtcResources("01:0:100000000"), c19Addr(5))
 			onCall := func(life, idx int, s, e *big.Int) {
-				if idx != 0 || kind == "btc" {
+				if idx != 0 {
 					return
 				}
-				dd, err := eh.ProcessDeposits(s, e)
+				var dd map[uint8][]*message.Message
+				var err error
+				switch kind {
+				case "evm":
+					dd, err = eh.ProcessDeposits(s, e)
+				case "sub":
+					dd, err = sh.ProcessDeposits(s, e)
+				case "btc":
+					if s.Sign() < 0 || !s.IsInt64() {
+						return
+					}
+					dd, err = bh.ProcessDeposits(s)
+				}
 				if err != nil {
 					return
 				}
@@ -271,6 +298,9 @@ func init() {
 				for _, ms := range dd {
 					for _, m := range ms {
 						n := m.Data.(transfer.TransferMessageData).DepositNonce
+						if kind == "btc" {
+							n = s.Uint64() // the BTC nonce is a hash; deposits are keyed by their block here
+						}
 						if ids[ri][n] == nil {
 							ids[ri][n] = map[string]bool{}
 						}
@@ -402,6 +432,23 @@ func (l *c19BlockingListener) FetchDeposits(ctx context.Context, a common.Addres
 	<-ch
 	return l.ds, nil
 }
+
+// c19BtcChainConn: block b of the fixed fake chain holds one transaction paying resource 01 (and the fee) for domain 2 + b%2
+type c19BtcChainConn struct{ cur *int64 }
+
+func (c c19BtcChainConn) GetRawTransactionVerbose(*chainhash.Hash) (*btcjson.TxRawResult, error) {
+	return nil, errRPC
+}
+func (c c19BtcChainConn) GetBlockHash(b int64) (*chainhash.Hash, error) {
+	*c.cur = b
+	return &chainhash.Hash{}, nil
+}
+func (c c19BtcChainConn) GetBlockVerboseTx(*chainhash.Hash) (*btcjson.GetBlockVerboseTxResult, error) {
+	txs := mkBtcTxs(itoa64(2+*c.cur%2) + "~0:2:t,5:1:t")
+	txs[0].Hash = fmt.Sprintf("%064x", *c.cur+1)
+	return &btcjson.GetBlockVerboseTxResult{Tx: txs}, nil
+}
+func (c c19BtcChainConn) GetBestBlockHash() (*chainhash.Hash, error) { return &chainhash.Hash{}, nil }
 
 func setStr(m map[string]bool) string {
 	xs := []string{}
